@@ -173,6 +173,11 @@ package util
 //@ modifies chars.slice
 // the event box is a mutex-protected map shared between goroutines: outside the contracts
 //@ func EventBox.Set trusted
+// (blocking / locking helpers of the event box: assumed to touch nothing but the box)
+//@ func EventBox.Unwatch trusted
+//@ modifies *b
+//@ func EventBox.WaitFor trusted
+//@ modifies *b
 
 // ToRunes: the characters as runes (the rune view itself, or a fresh widening copy of the bytes)
 //@ func Chars.ToRunes
